@@ -59,4 +59,23 @@ def render (part : List (List Nat)) : List Nat := part.flatMap (· ++ [10])
 /-- `Concatenator`: every input's bytes followed by LF, in arrival order -/
 def concatFiles (contents : List (List Nat)) : List Nat := contents.flatMap (· ++ [10])
 
+/-- `Concatenator` with `GroupByTag`: a file whose tag value is empty goes to the main output, any other file to the
+output of its tag value, created when the first file of that group arrives (the Go loop, one file per step;
+`none` = no value for the tag) -/
+def addTo (gs : List (Nat × List Nat)) (t : Nat) (b : List Nat) : List (Nat × List Nat) :=
+  match gs with
+  | [] => [(t, b)]
+  | (t', acc) :: rest => if t' = t then (t', acc ++ b) :: rest else (t', acc) :: addTo rest t b
+
+def concatLoop : List (Option Nat × List Nat) → List Nat × List (Nat × List Nat) → List Nat × List (Nat × List Nat)
+  | [], st => st
+  | (none, c) :: fs, (m, gs) => concatLoop fs (m ++ (c ++ [10]), gs)
+  | (some t, c) :: fs, (m, gs) => concatLoop fs (m, addTo gs t (c ++ [10]))
+
+def concatGrouped (fs : List (Option Nat × List Nat)) : List Nat × List (Nat × List Nat) := concatLoop fs ([], [])
+
+/-- the files of one group (`none`: the untagged ones), in arrival order -/
+def ofGroup (fs : List (Option Nat × List Nat)) (g : Option Nat) : List (List Nat) :=
+  (fs.filter fun f => f.1 == g).map (·.2)
+
 end SciVerif.Comp
